@@ -22,7 +22,7 @@ use std::panic::{catch_unwind, AssertUnwindSafe};
 pub const PROP: PropDef = PropDef {
     id: "C03",
     parts,
-    rule: "(urls) scheme {http,https} x authority {host, host:port, IPv4:port, [::1], [fe80::1]:443, user@host, [::1%25eth0]} x path {none, /, /a, /a/b/, /a%20b} x query {none, ?, ?x=1, ?x=1&y=2, ?cup2key=9:ab} x key sets {latest only, +1, +2 historical; ids incl. 2^64-1} x request content {update check, ping, events; 1-2 apps}, each built twice through the real RequestBuilder with the real handler; (histories) every request of histories with 0-2 failed attempts, install with three event reports, reboot-wait ping, restart and a further check, for 3 service URLs; non-trivial = decoration succeeded",
+    rule: "(urls) scheme {http,https} x authority {host, host:port, IPv4:port, [::1], [fe80::1]:443, user@host, [::1%25eth0]} x path {none, /, /a, /a/b/, /a%20b} x query {none, ?, ?x=1, ?x=1&y=2, ?cup2key=9:ab} x key sets {latest only, +1, +2 historical; ids incl. 2^64-1} x request content {update check, ping, events; 1-2 apps}, each built twice through the real RequestBuilder with the real handler; (histories) every request of histories with an optional completely failed check, 0-2 failed attempts before the answered one within the same check, install with three event reports, reboot-wait ping, restart and a further check, for 3 service URLs; non-trivial = decoration succeeded",
     assumptions: &["nonce unpredictability is not observable; only distinctness across all requests of a history (and of all builds of the enumeration) is checked", "http::Uri is the judge of which service URLs are well-formed"],
 };
 
@@ -161,25 +161,20 @@ fn run_hist(ctx: &RunCtx) -> RunOut {
     setup.cup = true;
     setup.service_url = url.into();
     let mut h = Hist::new(setup.clone(), Store::default());
-    // check 1: failed attempts then an update that installs and waits for reboot
-    {
-        let mut k = h.knobs();
-        k.uc = Uc::Update;
-        k.reboot_needed = true;
-        if failed_attempts > 0 {
-            // the first `failed_attempts` update-check requests fail in transit: forge slot unused,
-            // emulate through per-request knobs
-            k.uc = Uc::Transport;
-        }
-    }
-    if failed_attempts > 0 {
-        // run a failing check first (3 attempts), then the real one
+    // optionally a completely failed check first (3 attempts)
+    let failed_check_first = choose("failed_check_first", 2) == 1;
+    if failed_check_first {
+        h.knobs().uc = Uc::Transport;
         h.check();
+    }
+    // then a check whose first `failed_attempts` attempts fail in transit and whose next attempt
+    // offers an update that installs and waits for reboot
+    {
         let mut k = h.knobs();
         *k = hist::Knobs::default();
         k.uc = Uc::Update;
         k.reboot_needed = true;
-        drop(k);
+        k.uc_fail_first = failed_attempts;
     }
     h.check();
     if h.in_reboot_wait() {
@@ -199,7 +194,7 @@ fn run_hist(ctx: &RunCtx) -> RunOut {
     let log = h.log();
     let mut out = RunOut::new(format!("fa{failed_attempts}"), true, trace::digest(&log));
     if ctx.want_trace {
-        out.trace = Some(json!({"service_url": url, "failed_first_check": failed_attempts > 0, "restart": restart_before_last, "log": trace::trace_json(&log)}));
+        out.trace = Some(json!({"service_url": url, "failed_attempts_before_the_answered_one": failed_attempts, "failed_check_first": failed_check_first, "restart": restart_before_last, "log": trace::trace_json(&log)}));
     }
     if let Some(p) = h.problems.first() {
         return out.fail(format!("driver problem: {p}"), "");
